@@ -357,7 +357,7 @@ def run(tier, replay):
     rep.assumptions += ['wrong operand counts, unknown mnemonics/pack formats, align 0 and include cycles are not among the listed fault classes and are not planted',
                         'for a duplicated label either definition\'s line satisfies the oracle (counted separately); the model correspondence demands the second',
                         'a planted line that is not refused at all is not a C15 matter (counted as differ-not-refused against the model)',
-                        'source files are written as UTF-8 and read by an interpreter in UTF-8 mode (PYTHONUTF8=1 for the command line); non-ASCII text is outside the model (unsupported), the oracle still judges it']
+                        'source files are written as UTF-8 and read by an interpreter in UTF-8 mode (PYTHONUTF8=1 for the command line); non-ASCII text is modelled in string / error text and comments, elsewhere it is outside the model (unsupported) and the oracle still judges it']
     if not rep.violations and ob['failed']:
         rep.violation('proof obligation no longer checks: {} ({})'.format(ob['failed'][0][0], ob['failed'][0][1][:300]),
                       dict(theorem=ob['failed'][0][0], detail=ob['failed'][0][1]), no_input=True)
